@@ -69,6 +69,100 @@ func main() {
 		fmt.Printf("  (%s, %s, %d, %d, %s)%s\n", CoqString(s.dir), CoqString(s.fn), s.reads, s.writes, CoqBool(s.unguarded == 0), sep)
 	}
 	fmt.Println("].")
+	sharedState(repo)
+}
+
+// sharedState inventories the state that lives on process-wide singletons reachable from BOTH block execution and
+// read-only requests: every field of every struct type of x/evm/keeper and x/evm/precompile (the evm Keeper, the bank
+// keeper wrapper, the collections descriptors, the precompile objects built once by InitPrecompiles), and every
+// package-level `var` of the non-generated, non-test code under x/evm.
+func sharedState(repo string) {
+	type field struct{ dir, st, name, typ string }
+	var fields []field
+	for _, dir := range []string{"x/evm/keeper", "x/evm/precompile"} {
+		for _, fl := range ParseDir(filepath.Join(repo, dir)) {
+			for _, decl := range fl.F.Decls {
+				gd, ok := decl.(*ast.GenDecl)
+				if !ok || gd.Tok != token.TYPE {
+					continue
+				}
+				for _, sp := range gd.Specs {
+					ts := sp.(*ast.TypeSpec)
+					stt, ok := ts.Type.(*ast.StructType)
+					if !ok {
+						continue
+					}
+					for _, f := range stt.Fields.List {
+						typ := Nospace(f.Type)
+						if len(f.Names) == 0 { // embedded
+							fields = append(fields, field{dir, ts.Name.Name, "<embedded>", typ})
+						}
+						for _, n := range f.Names {
+							fields = append(fields, field{dir, ts.Name.Name, n.Name, typ})
+						}
+					}
+				}
+			}
+		}
+	}
+	sort.Slice(fields, func(i, j int) bool {
+		a, b := fields[i], fields[j]
+		return a.dir+"|"+a.st+"|"+a.name+"|"+a.typ < b.dir+"|"+b.st+"|"+b.name+"|"+b.typ
+	})
+	fmt.Println("(* fields of the singleton structs shared by DeliverTx and requests: (directory, struct, field, type) *)")
+	fmt.Println("Definition shared_fields : list (string * string * string * string) := [")
+	for i, f := range fields {
+		sep := ";"
+		if i == len(fields)-1 {
+			sep = ""
+		}
+		fmt.Printf("  (%s, %s, %s, %s)%s\n", CoqString(f.dir), CoqString(f.st), CoqString(f.name), CoqString(f.typ), sep)
+	}
+	fmt.Println("].")
+
+	type pvar struct{ dir, name, typ string }
+	var vars []pvar
+	filepath.WalkDir(filepath.Join(repo, "x/evm"), func(p string, d os.DirEntry, err error) error {
+		if err != nil || !d.IsDir() {
+			return nil
+		}
+		for _, fl := range ParseDir(p) {
+			if strings.Contains(filepath.Base(fl.Path), ".pb.") {
+				continue
+			}
+			for _, decl := range fl.F.Decls {
+				gd, ok := decl.(*ast.GenDecl)
+				if !ok || gd.Tok != token.VAR {
+					continue
+				}
+				for _, sp := range gd.Specs {
+					vs := sp.(*ast.ValueSpec)
+					for _, n := range vs.Names {
+						if n.Name == "_" {
+							continue
+						}
+						typ := ""
+						if vs.Type != nil {
+							typ = Nospace(vs.Type)
+						}
+						vars = append(vars, pvar{strings.TrimPrefix(p, repo+"/"), n.Name, typ})
+					}
+				}
+			}
+		}
+		return nil
+	})
+	sort.Slice(vars, func(i, j int) bool { return vars[i].dir+"|"+vars[i].name < vars[j].dir+"|"+vars[j].name })
+	fmt.Println("(* package-level variables of x/evm (non-test, non-generated): (directory, name, declared type or \"\") *)")
+	fmt.Println("Definition package_vars : list (string * string * string) := [")
+	for i, v := range vars {
+		sep := ";"
+		if i == len(vars)-1 {
+			sep = ""
+		}
+		fmt.Printf("  (%s, %s, %s)%s\n", CoqString(v.dir), CoqString(v.name), CoqString(v.typ), sep)
+	}
+	fmt.Println("].")
 }
 
 // receiver name when fd is a method of NibiruBankKeeper
